@@ -25,6 +25,13 @@ func (p *Plenc) Marshal(data []byte, value interface{}) ([]byte, error) {
 		if typ.Kind() == reflect.Map {
 			ptr = *(*unsafe.Pointer)(ptr)
 		}
+	} else if typ.Kind() != reflect.Map && directIface(typ) {
+		// The interface holds the value itself, not a pointer to it (e.g. a
+		// struct whose only field is a pointer or a map). The codecs need a
+		// pointer to the value, so take an addressable copy.
+		v := reflect.New(typ)
+		v.Elem().Set(reflect.ValueOf(value))
+		ptr = v.UnsafePointer()
 	}
 
 	c, err := p.CodecForType(typ)
@@ -40,6 +47,20 @@ func (p *Plenc) Marshal(data []byte, value interface{}) ([]byte, error) {
 	}
 
 	return c.Append(data, ptr, nil), nil
+}
+
+// directIface reports whether values of typ are stored directly in the data
+// word of an interface, rather than the interface pointing to a copy.
+func directIface(typ reflect.Type) bool {
+	switch typ.Kind() {
+	case reflect.Ptr, reflect.Map, reflect.Chan, reflect.Func, reflect.UnsafePointer:
+		return true
+	case reflect.Struct:
+		return typ.NumField() == 1 && directIface(typ.Field(0).Type)
+	case reflect.Array:
+		return typ.Len() == 1 && directIface(typ.Elem())
+	}
+	return false
 }
 
 func (p *Plenc) Unmarshal(data []byte, value interface{}) error {
